@@ -903,19 +903,52 @@ class ExtModel:
         outs.append(("val", st, res))
         return outs
 
+    def min_len(self, interp, st, base: V) -> int:
+        """Lower bound of len(base) known on this path."""
+        best = getattr(base, "minlen", 0) or 0
+        if isinstance(base, (TupleV, ListV)) and getattr(base, "items", None) is not None:
+            return len(base.items)
+        for n in range(1, 12):
+            if self._index_guarded(interp, st, base, Const(n - 1)):
+                best = max(best, n)
+            else:
+                break
+        return best
+
     def slice_value(self, interp, st, base: V, node) -> V:
         tag = self.type_tag(interp, base)
-        if isinstance(base, (TupleV, ListV)) and getattr(base, "items", None) is not None:
+
+        def lit(x):
+            if x is None:
+                return None
             try:
-                lo = ast.literal_eval(node.slice.lower) if node.slice.lower is not None else None
-                hi = ast.literal_eval(node.slice.upper) if node.slice.upper is not None else None
-                items = base.items[lo:hi]
-                return TupleV(items) if isinstance(base, TupleV) else ListV(items)
+                return ast.literal_eval(x)
             except (ValueError, SyntaxError):
-                pass
+                return "?"
+
+        lo, hi = lit(node.slice.lower), lit(node.slice.upper)
+        if isinstance(base, (TupleV, ListV)) and getattr(base, "items", None) is not None and lo != "?" and hi != "?" and node.slice.step is None:
+            items = base.items[lo:hi]
+            return TupleV(items) if isinstance(base, TupleV) else ListV(items, label=f"slice:{self._site(interp, st, node)}:{base.key()!r}")
+        minlen = 0
+        if node.slice.step is None and lo != "?" and hi != "?" and tag in ("list", "tuple", "str", "bytes"):
+            m = self.min_len(interp, st, base)
+            if isinstance(lo, int) and lo < 0 and hi is None:
+                minlen = min(-lo, m)
+            elif lo is None and isinstance(hi, int) and hi < 0:
+                minlen = max(0, m + hi)
+            elif lo is None and isinstance(hi, int) and hi >= 0:
+                minlen = min(hi, m)
+            elif isinstance(lo, int) and lo >= 0 and hi is None:
+                minlen = max(0, m - lo)
         if tag == "list":
-            return ListV(None, elem=getattr(base, "elem", None), label=f"slice:{self._site(interp, st, node)}:{base.key()!r}")
-        return Unknown(tag if tag != "?" else None, label=f"slice:{self._site(interp, st, node)}:{base.key()!r}")
+            res = ListV(None, elem=getattr(base, "elem", None), label=f"slice:{self._site(interp, st, node)}:{base.key()!r}")
+            res.minlen = minlen
+            res.nonempty = minlen > 0
+            return res
+        res = Unknown(tag if tag != "?" else None, label=f"slice:{self._site(interp, st, node)}:{base.key()!r}")
+        res.minlen = minlen
+        return res
 
     def generic_item(self, interp, st, base, key, node):
         tag = self.type_tag(interp, base)
